@@ -1,21 +1,40 @@
 //! Exchange workload: random multi-market histories through the real instructions.
 //!
-//! One `Sim` = one world (4 tokens, 4 markets sharing the SOL / USDC vaults, 3 users, keeper,
-//! stranger). `Sim::step` picks a weighted random operation — including *fault* operations (stale
-//! prices, closing by the wrong party, executing twice, expiring requests) — sends it as one
-//! transaction and returns a `StepRec` with the pre-state snapshot, so monitors can compare.
+//! One `Sim` = one world (4 tokens, 4 markets sharing the SOL / USDC vaults, one GLV over the three
+//! SOL/USDC markets, 3 users, keeper, a second order keeper, stranger). `Sim::step` picks a weighted
+//! random operation — including *fault* operations (stale prices, closing by the wrong party,
+//! executing twice, expiring requests) — sends it as one transaction and returns a `StepRec` with
+//! the pre-state snapshot, so monitors can compare.
+//!
+//! GLV actions (deposit / withdrawal / shift) are ordinary `ActionRec`s: they are executed, closed
+//! and re-executed through the same `Op::Execute` / `Op::Close` fault patterns as plain actions.
+//! GLV shifts are keeper-owned: the action's owner is the GLV account, the *funder* (the
+//! ORDER_KEEPER that created it, `World::keeper`) is its rent receiver and plays the `Who::Owner`
+//! part; `Who::Keeper` is then `Sim::keeper2`, an ORDER_KEEPER that did not fund the shift.
+//!
+//! ADL: `gen_adl_driver` looks at the open positions and emits the next useful single step of the
+//! sequence "move the index price in favour of a side → lower `min_pnl_factor_after_*_adl` /
+//! `max_pnl_factor_for_*_adl` below the current pnl-to-pool factor → `update_adl_state` →
+//! `auto_deleverage` a profitable position" (each step is one ordinary operation / transaction).
 
 use crate::world::{
     exchange::{self, load, OrderKind, OrderReq},
+    glv::{ata22, GlvInfo},
     *,
 };
-use anchor_lang::prelude::Pubkey;
-use gmsol_store::states::{common::action::Action, Deposit, Order, Position, Shift, Withdrawal};
+use anchor_lang::{prelude::Pubkey, InstructionData};
+use gmsol_store::states::{
+    common::action::Action, glv::GlvMarketFlag, glv::UpdateGlvParams, Deposit, GlvDeposit, GlvShift, GlvWithdrawal, Order, Position, Shift,
+    Withdrawal,
+};
+use gmsol_store::{accounts as sa, instruction as si};
 use gmsol_utils::action::ActionState;
 use hostsvm::{token, Svm, TxError, TxMeta};
 use vcommon::Rng;
 
 pub const E18: u128 = 1_000_000_000_000_000_000;
+/// Index of the GLV the Sim bootstraps (0 and 7 are used by dedicated scenarios of other monitors).
+pub const SIM_GLV_INDEX: u16 = 42;
 
 #[derive(Clone, Copy, Debug, PartialEq, Eq, PartialOrd, Ord)]
 pub enum ActKind {
@@ -23,13 +42,26 @@ pub enum ActKind {
     Withdrawal,
     Shift,
     Order,
+    GlvDeposit,
+    GlvWithdrawal,
+    GlvShift,
+}
+
+impl ActKind {
+    pub fn is_glv(self) -> bool {
+        matches!(self, ActKind::GlvDeposit | ActKind::GlvWithdrawal | ActKind::GlvShift)
+    }
 }
 
 #[derive(Clone, Debug)]
 pub struct ActionRec {
     pub kind: ActKind,
     pub addr: Pubkey,
+    /// Owner the escrowed tokens go home to. For GLV shifts (owned by the GLV account, no escrow)
+    /// this is the funder, i.e. the party that may close the shift in any state.
     pub owner: Pubkey,
+    /// Receiver of the account rent and the unused execution fee when the action is closed.
+    pub rent_receiver: Pubkey,
     /// Escrow token accounts with their mints.
     pub escrows: Vec<(Pubkey, Pubkey)>,
     /// Markets whose state the action may touch when executed.
@@ -53,6 +85,9 @@ pub enum Op {
     CreateWithdrawal { user: usize, market: usize, amount: u64, long_path: Vec<usize>, short_path: Vec<usize> },
     CreateShift { user: usize, from: usize, to: usize, amount: u64 },
     CreateOrder { user: usize, req: OrderReq },
+    CreateGlvDeposit { user: usize, market: usize, market_tokens: u64, long: u64, short: u64, min_glv: u64 },
+    CreateGlvWithdrawal { user: usize, market: usize, amount: u64, min_long: u64, min_short: u64 },
+    CreateGlvShift { from: usize, to: usize, amount: u64, min_to: u64 },
     Execute { action: usize, throw: bool },
     Close { action: usize, who: Who },
     CancelIfNoPosition { action: usize },
@@ -75,6 +110,9 @@ impl Op {
             Op::CreateWithdrawal { .. } => "create_withdrawal",
             Op::CreateShift { .. } => "create_shift",
             Op::CreateOrder { .. } => "create_order",
+            Op::CreateGlvDeposit { .. } => "create_glv_deposit",
+            Op::CreateGlvWithdrawal { .. } => "create_glv_withdrawal",
+            Op::CreateGlvShift { .. } => "create_glv_shift",
             Op::Execute { .. } => "execute",
             Op::Close { .. } => "close",
             Op::CancelIfNoPosition { .. } => "cancel_if_no_position",
@@ -125,6 +163,13 @@ pub struct Sim {
     pub spreads_bps: Vec<u32>,
     pub history: Vec<String>,
     pub tok: Toks,
+    /// The GLV over `glv_markets` (markets sharing the SOL / USDC long / short tokens).
+    pub glv: GlvInfo,
+    pub glv_markets: Vec<usize>,
+    /// Holds ORDER_KEEPER only; never funds a GLV shift.
+    pub keeper2: Pubkey,
+    /// Initial mid prices; directed price moves stay within [base / 10, base * 10].
+    pub base_prices: Vec<u128>,
 }
 
 #[derive(Clone, Copy, Debug)]
@@ -141,7 +186,15 @@ pub fn action_state(svm: &Svm, kind: ActKind, addr: &Pubkey) -> Option<ActionSta
         ActKind::Withdrawal => load::<Withdrawal>(svm, addr).and_then(|a| a.header().action_state().ok()),
         ActKind::Shift => load::<Shift>(svm, addr).and_then(|a| a.header().action_state().ok()),
         ActKind::Order => load::<Order>(svm, addr).and_then(|a| a.header().action_state().ok()),
+        ActKind::GlvDeposit => load::<GlvDeposit>(svm, addr).and_then(|a| a.header().action_state().ok()),
+        ActKind::GlvWithdrawal => load::<GlvWithdrawal>(svm, addr).and_then(|a| a.header().action_state().ok()),
+        ActKind::GlvShift => load::<GlvShift>(svm, addr).and_then(|a| a.header().action_state().ok()),
     }
+}
+
+/// Receiver recorded in the action header (orders only; other kinds are created with receiver == owner).
+pub fn order_receiver(svm: &Svm, addr: &Pubkey) -> Option<Pubkey> {
+    load::<Order>(svm, addr).map(|a| a.header().receiver())
 }
 
 impl Sim {
@@ -219,11 +272,16 @@ impl Sim {
             spreads_bps: vec![0; 4],
             history: vec![],
             tok: Toks { btc, sol, usdc, eth },
+            glv: GlvInfo { index: SIM_GLV_INDEX, glv_token: Pubkey::default(), glv: Pubkey::default() },
+            glv_markets: vec![0, 1, 3],
+            keeper2: hostsvm::key("keeper2"),
+            base_prices: vec![0; 4],
         };
         sim.prices[btc] = 60_000 * E18;
         sim.prices[sol] = 150 * E18;
         sim.prices[usdc] = E18;
         sim.prices[eth] = 3_000 * E18;
+        sim.base_prices = sim.prices.clone();
         sim.spreads_bps = vec![2, 10, 0, 5];
         sim.refresh_prices();
         // Base liquidity from a dedicated LP so that positions and swaps can execute from the start.
@@ -239,7 +297,52 @@ impl Sim {
                 let _ = sim.w.close_deposit(lp, d);
             }
         }
+        // A second order keeper (for closing GLV shifts it did not fund).
+        let keeper2 = sim.keeper2;
+        sim.w.svm.airdrop(&keeper2, 1_000 * LAMPORTS);
+        sim.w.grant(&keeper2, gmsol_utils::role::RoleKey::ORDER_KEEPER).expect("grant keeper2");
+        // The GLV over the three SOL/USDC markets, deposits allowed everywhere, short shift interval.
+        let glv_markets = sim.glv_markets.clone();
+        let glv = match sim.w.initialize_glv(SIM_GLV_INDEX, &glv_markets) {
+            Ok(g) => g,
+            Err((e, m)) => panic!("bootstrap step `initialize_glv` failed: {e:?} logs={:?}", m.logs),
+        };
+        sim.glv = glv;
+        for mi in &glv_markets {
+            let mt = sim.w.markets[*mi].market_token;
+            sim.w.toggle_glv_market_flag(&glv, mt, GlvMarketFlag::IsDepositAllowed, true).expect("glv: allow deposits");
+        }
+        let _ = sim.w.update_glv_config(&glv, UpdateGlvParams { shift_min_interval_secs: Some(10), ..Default::default() });
+        for mi in &glv_markets {
+            if let Ok(d) = sim.w.create_glv_deposit(lp, &glv, *mi, 0, 2_000 * 1_000_000_000, 300_000 * 1_000_000, 0, 0) {
+                let _ = sim.w.execute_glv_deposit(d, false);
+                let _ = sim.w.close_glv_deposit(lp, d);
+            }
+        }
+        // every user starts with some GLV tokens so that GLV withdrawals are possible from the start
+        for (i, u) in sim.users.clone().into_iter().enumerate() {
+            let mi = glv_markets[i % glv_markets.len()];
+            if let Ok(d) = sim.w.create_glv_deposit(u, &glv, mi, 0, 100 * 1_000_000_000, 15_000 * 1_000_000, 0, 0) {
+                let _ = sim.w.execute_glv_deposit(d, false);
+                let _ = sim.w.close_glv_deposit(u, d);
+            }
+        }
         sim
+    }
+
+    /// The account escrowed / returned tokens of `mint` live in for `owner` (the GLV token is a
+    /// Token-2022 mint, everything else legacy SPL).
+    pub fn home_ata(&self, owner: &Pubkey, mint: &Pubkey) -> Pubkey {
+        if *mint == self.glv.glv_token {
+            ata22(owner, mint)
+        } else {
+            token::ata(owner, mint)
+        }
+    }
+
+    /// The GLV's vault for the market tokens of `market`.
+    pub fn glv_vault_of(&self, market: usize) -> Pubkey {
+        self.w.glv_vault(&self.glv.glv, &self.w.markets[market].market_token)
     }
 
     pub fn bid_ask(&self, token: usize) -> (u128, u128, u128) {
@@ -313,7 +416,7 @@ impl Sim {
 
     pub fn gen_op(&mut self) -> Op {
         let n_act = self.actions.len();
-        let weights: [u32; 17] = [
+        let weights: [u32; 21] = [
             10, // warp
             8,  // move price
             3,  // refresh
@@ -331,6 +434,10 @@ impl Sim {
             1,  // transfer in
             1,  // update fees
             1,  // set config
+            4,  // create glv deposit
+            3,  // create glv withdrawal
+            2,  // create glv shift
+            6,  // adl driver
         ];
         let k = self.rng.weighted(&weights);
         let sol = self.w.tokens[self.tok.sol].mint;
@@ -430,6 +537,10 @@ impl Sim {
                     OrderKind::LimitSwap,
                 ]);
                 let mut req = OrderReq::new(kind, market, is_long, coll_long);
+                if self.rng.chance(1, 4) {
+                    // outputs go to another user; escrowed pay-in tokens still belong to the owner
+                    req.receiver = Some(self.users[(user + 1) % self.users.len()]);
+                }
                 let index = self.w.markets[market].index;
                 let idx_price_unit = self.index_unit_price(index);
                 match kind {
@@ -583,7 +694,146 @@ impl Sim {
                 };
                 Op::SetConfig { market, key: key.to_string(), value }
             }
+            17 => {
+                let user = self.rng.below(3) as usize;
+                // fault: the single-token market is not part of the GLV
+                let market = if self.rng.chance(1, 14) { 2 } else { *self.rng.pick(&[0usize, 1, 3]) };
+                let mt = self.w.markets[market].market_token;
+                let bal = token::token_amount(&self.w.svm, &token::ata(&self.users[user], &mt)).unwrap_or(0);
+                let mut market_tokens = 0;
+                if bal > 0 && self.rng.chance(1, 2) {
+                    market_tokens = match self.rng.below(6) {
+                        0 => bal,
+                        1 => bal.saturating_add(1), // fault: more than the owner has
+                        _ => self.rng.range(1, bal),
+                    };
+                }
+                let (mut long, mut short) = (0, 0);
+                if self.rng.chance(1, 2) {
+                    long = self.rng.log_u64(1_000 * 1_000_000_000).max(1);
+                }
+                if self.rng.chance(1, 2) {
+                    short = self.rng.log_u64(150_000 * 1_000_000).max(1);
+                }
+                // a minimum output nobody can meet makes the execution fail softly
+                let min_glv = if self.rng.chance(1, 7) { u64::MAX / 2 } else { 0 };
+                Op::CreateGlvDeposit { user, market, market_tokens, long, short, min_glv }
+            }
+            18 => {
+                let mut user = self.rng.below(3) as usize;
+                let glv_token = self.glv.glv_token;
+                for k in 0..3 {
+                    let cand = (user + k) % 3;
+                    if token::token_amount(&self.w.svm, &ata22(&self.users[cand], &glv_token)).unwrap_or(0) > 0 && !self.rng.chance(1, 10) {
+                        user = cand;
+                        break;
+                    }
+                }
+                let bal = token::token_amount(&self.w.svm, &ata22(&self.users[user], &glv_token)).unwrap_or(0);
+                let market = if self.rng.chance(1, 14) { 2 } else { *self.rng.pick(&[0usize, 1, 3]) };
+                let amount = match self.rng.below(5) {
+                    0 => bal,
+                    1 => bal.saturating_add(1),
+                    _ => self.rng.range(0, bal.max(1)),
+                };
+                let (mut min_long, mut min_short) = (0, 0);
+                if self.rng.chance(1, 7) {
+                    if self.rng.bool() {
+                        min_long = u64::MAX / 2;
+                    } else {
+                        min_short = u64::MAX / 2;
+                    }
+                }
+                Op::CreateGlvWithdrawal { user, market, amount, min_long, min_short }
+            }
+            19 => {
+                let from = *self.rng.pick(&[0usize, 1, 3]);
+                let mut to = *self.rng.pick(&[0usize, 1, 3, 0, 1, 3, 2]);
+                if to == from && !self.rng.chance(1, 10) {
+                    to = [0usize, 1, 3][(from + 1) % 3];
+                }
+                let bal = token::token_amount(&self.w.svm, &self.glv_vault_of(from)).unwrap_or(0);
+                let amount = match self.rng.below(8) {
+                    0 => bal.saturating_add(1), // fault: more than the GLV holds
+                    1 => 0,
+                    _ => self.rng.range(1, (bal / 4).max(1)),
+                };
+                let min_to = if self.rng.chance(1, 7) { u64::MAX / 2 } else { 0 };
+                Op::CreateGlvShift { from, to, amount, min_to }
+            }
+            20 => self.gen_adl_driver(),
             _ => Op::RefreshPrices,
+        }
+    }
+
+    /// The next useful single step towards a successful auto-deleveraging (see the module docs).
+    /// Uses the market's own pnl-factor function only to *steer* the workload; nothing is judged here.
+    fn gen_adl_driver(&mut self) -> Op {
+        use gmsol_model::{
+            price::{Price, Prices},
+            BaseMarket, BaseMarketExt, PnlFactorKind,
+        };
+        let pos = self.open_positions();
+        let mut cands: Vec<(Pubkey, Position, usize, bool, bool)> = vec![];
+        for (k, p) in pos {
+            let Some(mi) = self.w.markets.iter().position(|m| m.market_token == p.market_token) else { continue };
+            let is_long = p.try_is_long().unwrap_or(true);
+            let value = p.state.size_in_tokens.saturating_mul(self.index_unit_price(self.w.markets[mi].index));
+            let profitable = if is_long { value > p.state.size_in_usd } else { value < p.state.size_in_usd };
+            cands.push((k, p, mi, is_long, profitable));
+        }
+        if cands.is_empty() {
+            return Op::RefreshPrices;
+        }
+        // prefer the side that is already closest to ADL: enabled > profitable > anything
+        let enabled: Vec<usize> = (0..cands.len())
+            .filter(|i| cands[*i].4 && self.w.market_state(cands[*i].2).map(|m| m.is_adl_enabled(cands[*i].3)).unwrap_or(false))
+            .collect();
+        let profitable: Vec<usize> = (0..cands.len()).filter(|i| cands[*i].4).collect();
+        let pick = if !enabled.is_empty() && !self.rng.chance(1, 5) {
+            *self.rng.pick(&enabled)
+        } else if !profitable.is_empty() && !self.rng.chance(1, 8) {
+            *self.rng.pick(&profitable)
+        } else {
+            self.rng.below(cands.len() as u64) as usize
+        };
+        let (position, p, mi, is_long, is_profitable) = cands[pick];
+        let mk = self.w.markets[mi].clone();
+        let Some(market) = self.w.market_state(mi) else { return Op::RefreshPrices };
+        let at = |t: usize| {
+            let u = self.index_unit_price(t);
+            Price { min: u, max: u }
+        };
+        let prices = Prices { index_token_price: at(mk.index), long_token_price: at(mk.long), short_token_price: at(mk.short) };
+        let factor = market.pnl_factor(&prices, is_long, true).ok().filter(|f| *f > 0).map(|f| f as u128);
+        let limit = market.pnl_factor_config(PnlFactorKind::ForAdl, is_long).unwrap_or(u128::MAX);
+        let min_after = market.pnl_factor_config(PnlFactorKind::MinAfterAdl, is_long).unwrap_or(0);
+        let side = if is_long { "long" } else { "short" };
+        match factor {
+            Some(f) if is_profitable => {
+                if min_after > f / 3 {
+                    Op::SetConfig { market: mi, key: format!("min_pnl_factor_after_{side}_adl"), value: f / self.rng.range_u128(4, 40) }
+                } else if f <= limit {
+                    Op::SetConfig { market: mi, key: format!("max_pnl_factor_for_{side}_adl"), value: (f / 100 * self.rng.range_u128(35, 95)).max(1) }
+                } else if !market.is_adl_enabled(is_long) || self.rng.chance(1, 8) {
+                    Op::UpdateAdl { market: mi, is_long }
+                } else {
+                    let size = p.state.size_in_usd;
+                    let s = match self.rng.below(5) {
+                        0 => size,
+                        1 => size / 2 + 1,
+                        _ => self.rng.range_u128(size / 20 + 1, size.max(size / 20 + 1)),
+                    };
+                    Op::Adl { position, size: s }
+                }
+            }
+            _ => {
+                // move the index price in favour of that side
+                let token = mk.index;
+                let pct = if is_long { self.rng.range(104, 125) } else { self.rng.range(80, 96) } as u128;
+                let price = (self.prices[token] / 100 * pct).clamp(self.base_prices[token] / 10, self.base_prices[token] * 10);
+                Op::MovePrice { token, price, spread_bps: self.rng.range(0, 30) as u32 }
+            }
         }
     }
 
@@ -615,9 +865,11 @@ impl Sim {
         self.rng.below(n as u64) as usize
     }
 
-    fn who(&self, w: Who, owner: Pubkey) -> Pubkey {
+    /// The signer playing the part `w` for action `a` (see the module docs for GLV shifts).
+    pub fn who(&self, w: Who, a: &ActionRec) -> Pubkey {
         match w {
-            Who::Owner => owner,
+            Who::Owner => a.owner,
+            Who::Keeper if a.kind == ActKind::GlvShift => self.keeper2,
             Who::Keeper => self.w.keeper,
             Who::Stranger => self.stranger,
         }
@@ -655,10 +907,30 @@ impl Sim {
                     mints.extend(t.short_token().token());
                 }
             }
+            ActKind::GlvDeposit => {
+                if let Some(d) = load::<GlvDeposit>(&self.w.svm, addr) {
+                    let t = d.tokens();
+                    mints.push(t.glv_token());
+                    mints.push(t.market_token());
+                    mints.extend(t.initial_long_token.token());
+                    mints.extend(t.initial_short_token.token());
+                }
+            }
+            ActKind::GlvWithdrawal => {
+                if let Some(d) = load::<GlvWithdrawal>(&self.w.svm, addr) {
+                    let t = d.tokens();
+                    mints.push(t.glv_token());
+                    mints.push(t.market_token());
+                    mints.push(t.final_long_token());
+                    mints.push(t.final_short_token());
+                }
+            }
+            // A GLV shift escrows nothing: it moves market tokens between the GLV's own vaults.
+            ActKind::GlvShift => {}
         }
         mints.sort();
         mints.dedup();
-        mints.into_iter().map(|m| (token::ata(addr, &m), m)).collect()
+        mints.into_iter().map(|m| (self.home_ata(addr, &m), m)).collect()
     }
 
     fn markets_of_path(&self, base: usize, paths: &[&[Pubkey]]) -> Vec<usize> {
@@ -712,7 +984,7 @@ impl Sim {
                     Ok(addr) => {
                         let escrows = self.escrows_of(ActKind::Deposit, &addr);
                         let markets = self.markets_of_path(*market, &[&lp, &sp]);
-                        self.actions.push(ActionRec { kind: ActKind::Deposit, addr, owner, escrows, markets, is_position_cut: false });
+                        self.actions.push(ActionRec { kind: ActKind::Deposit, addr, owner, rent_receiver: owner, escrows, markets, is_position_cut: false });
                         created = Some(self.actions.len() - 1);
                         Ok(TxMeta::default())
                     }
@@ -728,7 +1000,7 @@ impl Sim {
                     Ok(addr) => {
                         let escrows = self.escrows_of(ActKind::Withdrawal, &addr);
                         let markets = self.markets_of_path(*market, &[&lp, &sp]);
-                        self.actions.push(ActionRec { kind: ActKind::Withdrawal, addr, owner, escrows, markets, is_position_cut: false });
+                        self.actions.push(ActionRec { kind: ActKind::Withdrawal, addr, owner, rent_receiver: owner, escrows, markets, is_position_cut: false });
                         created = Some(self.actions.len() - 1);
                         Ok(TxMeta::default())
                     }
@@ -741,7 +1013,7 @@ impl Sim {
                 Some(match r {
                     Ok(addr) => {
                         let escrows = self.escrows_of(ActKind::Shift, &addr);
-                        self.actions.push(ActionRec { kind: ActKind::Shift, addr, owner, escrows, markets: vec![*from, *to], is_position_cut: false });
+                        self.actions.push(ActionRec { kind: ActKind::Shift, addr, owner, rent_receiver: owner, escrows, markets: vec![*from, *to], is_position_cut: false });
                         created = Some(self.actions.len() - 1);
                         Ok(TxMeta::default())
                     }
@@ -755,7 +1027,48 @@ impl Sim {
                     Ok(addr) => {
                         let escrows = self.escrows_of(ActKind::Order, &addr);
                         let markets = self.markets_of_path(req.market, &[&req.swap_path]);
-                        self.actions.push(ActionRec { kind: ActKind::Order, addr, owner, escrows, markets, is_position_cut: false });
+                        self.actions.push(ActionRec { kind: ActKind::Order, addr, owner, rent_receiver: owner, escrows, markets, is_position_cut: false });
+                        created = Some(self.actions.len() - 1);
+                        Ok(TxMeta::default())
+                    }
+                    Err(e) => Err(e),
+                })
+            }
+            Op::CreateGlvDeposit { user, market, market_tokens, long, short, min_glv } => {
+                let owner = self.users[*user];
+                let glv = self.glv;
+                let r = self.w.create_glv_deposit(owner, &glv, *market, *market_tokens, *long, *short, 0, *min_glv);
+                Some(match r {
+                    Ok(addr) => {
+                        let escrows = self.escrows_of(ActKind::GlvDeposit, &addr);
+                        self.actions.push(ActionRec { kind: ActKind::GlvDeposit, addr, owner, rent_receiver: owner, escrows, markets: vec![*market], is_position_cut: false });
+                        created = Some(self.actions.len() - 1);
+                        Ok(TxMeta::default())
+                    }
+                    Err(e) => Err(e),
+                })
+            }
+            Op::CreateGlvWithdrawal { user, market, amount, min_long, min_short } => {
+                let owner = self.users[*user];
+                let glv = self.glv;
+                let r = self.w.create_glv_withdrawal(owner, &glv, *market, *amount, *min_long, *min_short);
+                Some(match r {
+                    Ok(addr) => {
+                        let escrows = self.escrows_of(ActKind::GlvWithdrawal, &addr);
+                        self.actions.push(ActionRec { kind: ActKind::GlvWithdrawal, addr, owner, rent_receiver: owner, escrows, markets: vec![*market], is_position_cut: false });
+                        created = Some(self.actions.len() - 1);
+                        Ok(TxMeta::default())
+                    }
+                    Err(e) => Err(e),
+                })
+            }
+            Op::CreateGlvShift { from, to, amount, min_to } => {
+                let glv = self.glv;
+                let r = self.w.create_glv_shift(&glv, *from, *to, *amount, *min_to);
+                Some(match r {
+                    Ok(addr) => {
+                        // funded by `keeper`: it receives the rent / unused fee and may close in any state
+                        self.actions.push(ActionRec { kind: ActKind::GlvShift, addr, owner: keeper, rent_receiver: keeper, escrows: vec![], markets: vec![*from, *to], is_position_cut: false });
                         created = Some(self.actions.len() - 1);
                         Ok(TxMeta::default())
                     }
@@ -771,6 +1084,19 @@ impl Sim {
                     ActKind::Withdrawal => self.w.execute_withdrawal_ix(keeper, a.addr, *throw).map(|i| vec![i]),
                     ActKind::Shift => self.w.execute_shift_ix(keeper, a.addr, *throw).map(|i| vec![i]),
                     ActKind::Order => self.w.execute_order_ixs(keeper, a.addr, *throw),
+                    // the GLV helpers always claim the full fee: re-encode with the fee chosen above
+                    ActKind::GlvDeposit => self.w.execute_glv_deposit_ix(keeper, a.addr, *throw).map(|mut i| {
+                        i.data = si::ExecuteGlvDeposit { execution_lamports: self.w.exec_fee, throw_on_execution_error: *throw }.data();
+                        vec![i]
+                    }),
+                    ActKind::GlvWithdrawal => self.w.execute_glv_withdrawal_ix(keeper, a.addr, *throw).map(|mut i| {
+                        i.data = si::ExecuteGlvWithdrawal { execution_lamports: self.w.exec_fee, throw_on_execution_error: *throw }.data();
+                        vec![i]
+                    }),
+                    ActKind::GlvShift => self.w.execute_glv_shift_ix(keeper, a.addr, *throw).map(|mut i| {
+                        i.data = si::ExecuteGlvShift { execution_lamports: self.w.exec_fee, throw_on_execution_error: *throw }.data();
+                        vec![i]
+                    }),
                 };
                 match ixs {
                     Some(ixs) => {
@@ -782,12 +1108,15 @@ impl Sim {
             }
             Op::Close { action, who } => {
                 let a = self.actions[*action].clone();
-                let executor = self.who(*who, a.owner);
+                let executor = self.who(*who, &a);
                 let ix = match a.kind {
                     ActKind::Deposit => self.w.close_deposit_ix(executor, a.addr),
                     ActKind::Withdrawal => self.w.close_withdrawal_ix(executor, a.addr),
                     ActKind::Shift => self.w.close_shift_ix(executor, a.addr),
                     ActKind::Order => self.w.close_order_ix(executor, a.addr),
+                    ActKind::GlvDeposit => self.w.close_glv_deposit_ix(executor, a.addr),
+                    ActKind::GlvWithdrawal => self.w.close_glv_withdrawal_ix(executor, a.addr),
+                    ActKind::GlvShift => self.w.glv_shift_close_ix(executor, a.addr),
                 };
                 match ix {
                     Some(ix) => {
@@ -822,6 +1151,7 @@ impl Sim {
                                 kind: ActKind::Order,
                                 addr: order,
                                 owner: owner.unwrap_or_default(),
+                                rent_receiver: keeper,
                                 escrows,
                                 markets: mi.into_iter().collect(),
                                 is_position_cut: true,
@@ -870,5 +1200,35 @@ impl Sim {
         }
         self.history.push(format!("{:?} => {}", op, outcome));
         StepRec { op, pre, result, created, sent }
+    }
+}
+
+// ------------------------------------------------------------------------------------------------
+// World helper additions (kept here so that `world/glv.rs` stays untouched while others edit it).
+
+impl World {
+    /// `close_glv_shift` signed by an arbitrary `executor` (`World::close_glv_shift` always signs
+    /// with the keeper).
+    pub fn glv_shift_close_ix(&self, executor: Pubkey, glv_shift: Pubkey) -> Option<anchor_lang::solana_program::instruction::Instruction> {
+        let s: GlvShift = load(&self.svm, &glv_shift)?;
+        let t = s.tokens();
+        Some(six(
+            sa::CloseGlvShift {
+                authority: executor,
+                funder: *s.funder(),
+                store: self.store,
+                store_wallet: self.store_wallet(),
+                glv: *s.glv(),
+                glv_shift,
+                from_market_token: t.from_market_token(),
+                to_market_token: t.to_market_token(),
+                system_program: anchor_lang::system_program::ID,
+                token_program: anchor_spl::token::spl_token::ID,
+                associated_token_program: anchor_spl::associated_token::ID,
+                event_authority: self.event_authority(),
+                program: STORE_PID,
+            },
+            si::CloseGlvShift { reason: "test".into() },
+        ))
     }
 }
